@@ -113,6 +113,11 @@ let process id k ext succs roots pres events =
             | _ -> do_step "ctx.Done observed but the frame is not cancelled in the model" (LWaitCancel (mt t)))
          | ["startok"; t] -> do_step "Start: no free permit in the model (more than K permits in use)" (LStart (mt (int_of_string t)))
          | ["startfail"; t] -> do_step "Start failed but the frame is not cancelled in the model" (LStartFail (mt (int_of_string t)))
+         | ["push"; t; "s"] ->
+           (* the push stored the node and then failed: DPushFailStored of Model/CopyImplDst.v *)
+           (match dstep succ !dst (DPushFailStored (mt (int_of_string t))) with
+            | Some x' -> dst := x'; st := x'.ds; incr nsteps; if not (dclosedb succ x'.dd) then closed := false
+            | None -> raise (Reject "push not enabled"))
          | ["push"; t; r] -> do_step "push not enabled" (LPush (mt (int_of_string t), r = "1"))
          | ["ret"; t; e] -> expect_fin (int_of_string t) (e = "1")
          | ["goret"; f; e] ->
@@ -177,5 +182,45 @@ let () =
              | Reject why -> Printf.printf "%s REJECT %s\n" id why in
            attempt 400
          | _ -> Printf.printf "%s UNJUDGED\n" id)
+      | id :: "SEM" :: size :: ops ->
+        (* a script for semaphore.Weighted (harness sem.go) replayed on Model/CopyImplSem.v:
+           a:<w>:<ctxdone>:<g|b|f>  r:<woken waiter | ->  c:<w> *)
+        let s = ref (ssize_init (nat_of_int (int_of_string size))) in
+        let bad = ref None in
+        let stepm o = match sstep !s o with Some (s', r) -> s := s'; Some r | None -> None in
+        List.iteri (fun i tok ->
+            if !bad = None then begin
+              let wrong why = bad := Some (Printf.sprintf "%d %s %s" i tok why) in
+              match String.split_on_char ':' tok with
+              | ["a"; w; d; r] ->
+                (match stepm (SAcquire (nat_of_int (int_of_string w), d = "1")), r with
+                 | Some RGranted, "g" | Some RBlocked, "b" | Some RFailed, "f" -> ()
+                 | _ -> wrong "Acquire_result_differs_from_the_model")
+              | ["r"; w] when w <> "-" && (match (!s).s_wait with h :: _ -> int_of_nat h <> int_of_string w | [] -> false)
+                              && List.exists (fun x -> int_of_nat x = int_of_string w) (!s).s_wait ->
+                (* the woken goroutine is queued in the model but not first: the harness issued two blocking
+                   Acquire calls whose goroutines enqueued themselves in the other order (scheduling of
+                   the harness, not of the semaphore): the recorded order is ambiguous, the oracle judged the run *)
+                bad := Some "UNJUDGED enqueue-order"
+              | ["r"; w] ->
+                (match stepm SRelease with
+                 | Some (RDone woken) ->
+                   let wk = List.map int_of_nat woken in
+                   if (w = "-" && wk = []) || (w <> "-" && wk = [int_of_string w]) then
+                     (if w <> "-" then match stepm (SWake (nat_of_int (int_of_string w), false)) with Some RGranted -> () | _ -> wrong "wake")
+                   else wrong (Printf.sprintf "Release_wakes_[%s]_in_the_model" (String.concat "," (List.map string_of_int wk)))
+                 | _ -> wrong "Release_not_enabled")
+              | ["c"; w] ->
+                (match stepm (SCancel (nat_of_int (int_of_string w))) with
+                 | Some (RDone []) -> ()
+                 | _ -> wrong "cancel_differs")
+              | _ -> wrong "unknown_op"
+            end) ops;
+        (match !bad with
+         | Some why when String.length why >= 8 && String.sub why 0 8 = "UNJUDGED" -> Printf.printf "%s %s\n" id why
+         | Some why -> Printf.printf "%s REJECT %s\n" id why
+         | None ->
+           Printf.printf "%s SEM held=%d wait=%s\n" id (int_of_nat (!s).s_held)
+             (match (!s).s_wait with [] -> "-" | l -> String.concat "," (List.map (fun x -> string_of_int (int_of_nat x)) l)))
       | id :: _ -> Printf.printf "%s UNJUDGED\n" id
       | [] -> ())
